@@ -866,6 +866,23 @@ example : (demoProg b!"function f(x) { while (x) { if (x > 3) break; x++ } retur
 def tkB : Token := ⟨.break_, 0, []⟩
 def tkT : Token := ⟨.true_, 0, []⟩
 def tk7 : Token := ⟨.num, 0, b!"7"⟩
+def tkF : Token := ⟨.false_, 0, []⟩
+def tk0 : Token := ⟨.num, 0, b!"0"⟩
+
+/-- instances of the hypotheses of the one-step laws of Part 1.  `if_true`, `if_false_else`,
+    `if_false_none`, `if_cond_error`: a condition that evaluates to a truthy value, to a falsy
+    value, and one that fails (`7 % 0`) -/
+example : (match evalExpr Program.empty 3 (.lit tkT) default, evalExpr Program.empty 3 (.lit tkF) default,
+      evalExpr Program.empty 3 (.binary (.lit tk7) (.lit tk0) ⟨.percent, 0, []⟩) default with
+    | .ok c1 s1, .ok c2 s2, .err (.runtime _ _) _ => (s1.heap.get c1).truthy && !(s2.heap.get c2).truthy
+    | _, _, _ => false) = true := by decide +kernel
+/-- `return_leaves_function`, `no_return_yields_null`, `next_exit_through_call`: bodies that end
+    with `return` (return slot set), normally, and with `next`.  (The hypotheses of the
+    `loopIter_…` laws are about an arbitrary `body : EM Unit` and hold e.g. for constant ones.) -/
+example : (match evalStmt Program.empty 3 (.ret (some (.lit tk7))) default,
+      evalStmt Program.empty 3 (.block tkB []) default, evalStmt Program.empty 3 (.next tkB) default with
+    | .err (.sig .ret) s1, .ok () _, .err (.sig .next) _ => s1.returnVal.isSome
+    | _, _, _ => false) = true := by decide +kernel
 def stAfter {α : Type} : Res α → St
   | .ok _ s => s
   | .err _ s => s
